@@ -1,1 +1,497 @@
-(* stub *)
+(* C12_lists_thm.v — theorems, by induction, about the hand models of coq/model/C12_lists.v:
+   get_nan_intervals = the maximal runs; remove_jumps = parity of the jumps so far; slerp_nan = interpolants
+   at k/(L+1) inside every interior run, for every length of the array and every position/length of the runs.
+   No real numbers here: the row type, its negation, the jump test and the interpolation are parameters. *)
+From Coq Require Import List Arith Bool Lia.
+From AhrsModel Require Import C12_lists.
+Import ListNotations.
+
+(* ======================================================================================
+   A. index lists
+   ====================================================================================== *)
+Lemma in_positions m i : In i (positions m) <-> nth i m false = true.
+Proof.
+  unfold positions. rewrite filter_In, in_seq. split; [tauto|]. intros H. split; [|exact H].
+  destruct (Nat.lt_ge_cases i (length m)); [lia|]. rewrite nth_overflow in H by lia. discriminate.
+Qed.
+
+(* strictly increasing, bounded below by lo *)
+Fixpoint inc_from (lo : nat) (l : list nat) : Prop :=
+  match l with [] => True | a :: r => lo <= a /\ inc_from (S a) r end.
+Lemma inc_from_weaken lo lo' l : lo <= lo' -> inc_from lo' l -> inc_from lo l.
+Proof. destruct l; simpl; [tauto|]. intros; split; [lia|tauto]. Qed.
+Lemma inc_from_ge lo l : inc_from lo l -> forall x, In x l -> lo <= x.
+Proof.
+  revert lo. induction l as [|a r IH]; simpl; [tauto|]. intros lo [H1 H2] x [<-|Hx]; [lia|].
+  specialize (IH _ H2 x Hx). lia.
+Qed.
+Lemma filter_seq_inc f n lo : inc_from lo (filter f (seq lo n)).
+Proof.
+  revert lo. induction n as [|n IH]; intros lo; simpl; [exact I|].
+  destruct (f lo); simpl.
+  - split; [lia|apply IH].
+  - apply inc_from_weaken with (S lo); [lia|apply IH].
+Qed.
+Lemma positions_inc m : inc_from 0 (positions m).
+Proof. apply filter_seq_inc. Qed.
+Lemma inc_from_map_S lo l : inc_from lo l -> inc_from (S lo) (map S l).
+Proof. revert lo. induction l as [|a r IH]; simpl; [tauto|]. intros lo [H1 H2]. split; [lia|apply IH; exact H2]. Qed.
+
+(* ======================================================================================
+   B. chunks of an increasing index list are exactly its maximal runs of consecutive indices
+   ====================================================================================== *)
+Definition run (l : list nat) (s e : nat) : Prop :=
+  s <= e /\ (forall i, s <= i <= e -> In i l) /\ (forall j, S j = s -> ~ In j l) /\ ~ In (S e) l.
+
+Lemma chunks_nil l : chunks l = [] -> l = [].
+Proof.
+  destruct l as [|a r]; [reflexivity|]. simpl. destruct (chunks r) as [|[s e] tl]; [discriminate|].
+  destruct (s =? S a); discriminate.
+Qed.
+Lemma chunks_hd a r : exists e tl, chunks (a :: r) = (a, e) :: tl.
+Proof.
+  simpl. destruct (chunks r) as [|[s e] tl]; [repeat eexists|]. destruct (s =? S a); repeat eexists.
+Qed.
+
+Lemma chunks_spec l : forall lo, inc_from lo l ->
+  inc_from lo (map fst (chunks l)) /\ forall s e, In (s, e) (chunks l) <-> run l s e.
+Proof.
+  induction l as [|a r IH]; intros lo Hinc.
+  - simpl. split; [exact I|]. intros s e. split; [tauto|]. intros (H1 & H2 & _). apply (H2 s). lia.
+  - destruct Hinc as [Hlo Hr]. destruct (IH _ Hr) as [IHinc IHspec]. clear IH.
+    pose proof (inc_from_ge _ _ Hr) as Hge.
+    simpl. destruct (chunks r) as [|[b e0] tl] eqn:E.
+    + apply chunks_nil in E. subst r. simpl. split; [split; [lia|exact I]|].
+      intros s e. unfold run. simpl. split.
+      * intros [H|[]]. injection H as <- <-. repeat split; try lia.
+      * intros (H1 & H2 & H3 & H4). left.
+        assert (s = a) by (destruct (H2 s ltac:(lia)) as [Hx|[]]; lia).
+        assert (e = a) by (destruct (H2 e ltac:(lia)) as [Hx|[]]; lia). subst. reflexivity.
+    + (* r is non-empty and its first chunk starts at its head b *)
+      destruct r as [|b' r']; [discriminate E|].
+      destruct (chunks_hd b' r') as (e1 & tl1 & E1). rewrite E1 in E. injection E as -> -> ->.
+      simpl in IHinc. destruct IHinc as [Hab Htl].
+      assert (Hb : S a <= b) by lia.
+      assert (Hr' : forall x, In x r' -> S b <= x) by (destruct Hr as [_ Hr]; apply (inc_from_ge _ _ Hr)).
+      assert (Hstart : forall s e, In (s, e) tl -> S b <= s).
+      { intros s e H. apply (inc_from_ge _ _ Htl). change s with (fst (s, e)). apply in_map. exact H. }
+      assert (Hhead : run (b :: r') b e0) by (apply IHspec; left; reflexivity).
+      destruct (b =? S a) eqn:Eb.
+      * apply Nat.eqb_eq in Eb. subst b. simpl. split; [split; [lia|apply inc_from_weaken with (S (S a)); [lia|exact Htl]]|].
+        intros s e. split.
+        -- intros [H|H].
+           ++ injection H as <- <-. destruct Hhead as (G1 & G2 & G3 & G4). unfold run. repeat split.
+              ** lia.
+              ** intros i Hi. destruct (Nat.eq_dec i a) as [->|]; [left; reflexivity|]. right. apply G2. lia.
+              ** intros j Hj [H|H]; [lia|]. specialize (Hge _ H). lia.
+              ** intros [H|H]; [lia|]. apply G4. exact H.
+           ++ pose proof (Hstart _ _ H). assert (R0 : run (S a :: r') s e) by (apply IHspec; right; exact H).
+              destruct R0 as (G1 & G2 & G3 & G4). unfold run. repeat split.
+              ** lia.
+              ** intros i Hi. right. apply G2. exact Hi.
+              ** intros j Hj [Hx|Hx]; [lia|]. apply (G3 j Hj). exact Hx.
+              ** intros [Hx|Hx]; [lia|]. apply G4. exact Hx.
+        -- intros (G1 & G2 & G3 & G4).
+           assert (Hs : In s (a :: S a :: r')) by (apply G2; lia). destruct Hs as [<-|Hs].
+           ++ (* s = a: the run continues through S a, so it is the extended head chunk *)
+              assert (S a <= e).
+              { destruct (Nat.eq_dec e a) as [->|]; [|lia]. exfalso. apply G4. right. left. reflexivity. }
+              assert (R0 : run (S a :: r') (S a) e).
+              { unfold run. repeat split.
+                - lia.
+                - intros i Hi. destruct (G2 i ltac:(lia)) as [Hx|Hx]; [lia|exact Hx].
+                - intros j Hj Hx. specialize (Hge _ Hx). lia.
+                - intros Hx. apply G4. right. exact Hx. }
+              apply IHspec in R0. destruct R0 as [R0|R0]; [injection R0 as <-; left; reflexivity|].
+              specialize (Hstart _ _ R0). lia.
+           ++ specialize (Hge _ Hs).
+              assert (R0 : run (S a :: r') s e).
+              { unfold run. repeat split.
+                - lia.
+                - intros i Hi. destruct (G2 i Hi) as [Hx|Hx]; [lia|exact Hx].
+                - intros j Hj Hx. apply (G3 j Hj). right. exact Hx.
+                - intros Hx. apply G4. right. exact Hx. }
+              apply IHspec in R0. destruct R0 as [R0|R0]; [|right; exact R0].
+              injection R0 as <- <-. exfalso. apply (G3 a eq_refl). left. reflexivity.
+      * apply Nat.eqb_neq in Eb. assert (Hna : ~ In (S a) (b :: r')).
+        { intros [Hx|Hx]; [lia|]. specialize (Hr' _ Hx). lia. }
+        simpl. split; [split; [lia|split; [lia|exact Htl]]|].
+        intros s e. split.
+        -- intros [H|H].
+           ++ injection H as <- <-. unfold run. repeat split.
+              ** lia.
+              ** intros i Hi. left. lia.
+              ** intros j Hj [Hx|Hx]; [lia|]. specialize (Hge _ Hx). lia.
+              ** intros [Hx|Hx]; [lia|]. apply Hna. exact Hx.
+           ++ assert (R0 : run (b :: r') s e) by (apply IHspec; exact H).
+              destruct R0 as (G1 & G2 & G3 & G4). unfold run. repeat split.
+              ** lia.
+              ** intros i Hi. right. apply G2. exact Hi.
+              ** intros j Hj [Hx|Hx]; [|apply (G3 j Hj); exact Hx]. subst j. apply Hna. rewrite Hj. apply G2. lia.
+              ** intros [Hx|Hx]; [|apply G4; exact Hx].
+                 assert (In s (b :: r')) by (apply G2; lia). specialize (Hge _ H0). lia.
+        -- intros (G1 & G2 & G3 & G4).
+           assert (Hs : In s (a :: b :: r')) by (apply G2; lia). destruct Hs as [<-|Hs].
+           ++ left. destruct (Nat.eq_dec e a) as [->|]; [reflexivity|]. exfalso.
+              destruct (G2 (S a) ltac:(lia)) as [Hx|Hx]; [lia|]. apply Hna. exact Hx.
+           ++ right. specialize (Hge _ Hs). apply IHspec. unfold run. repeat split.
+              ** lia.
+              ** intros i Hi. destruct (G2 i Hi) as [Hx|Hx]; [lia|exact Hx].
+              ** intros j Hj Hx. apply (G3 j Hj). right. exact Hx.
+              ** intros Hx. apply G4. right. exact Hx.
+Qed.
+
+(* ======================================================================================
+   C. get_nan_intervals on a NaN mask
+   ====================================================================================== *)
+Definition maxrun (m : list bool) (s e : nat) : Prop :=
+  s <= e /\ (forall i, s <= i <= e -> nth i m false = true) /\ (forall j, S j = s -> nth j m false = false)
+  /\ nth (S e) m false = false.
+
+Lemma not_true_false b : b <> true <-> b = false.
+Proof. destruct b; split; intros; try discriminate; try reflexivity. exfalso. apply H. reflexivity. Qed.
+
+Theorem nan_intervals_are_maximal_runs m s e : In (s, e) (get_nan_intervals m) <-> maxrun m s e.
+Proof.
+  unfold get_nan_intervals. destruct (chunks_spec (positions m) 0 (positions_inc m)) as [_ H]. rewrite H.
+  unfold run, maxrun. split; intros (H1 & H2 & H3 & H4); repeat split; try assumption.
+  - intros i Hi. apply in_positions. apply H2. exact Hi.
+  - intros j Hj. apply not_true_false. intros Hx. apply (H3 j Hj). apply in_positions. exact Hx.
+  - apply not_true_false. intros Hx. apply H4. apply in_positions. exact Hx.
+  - intros i Hi. apply in_positions. apply H2. exact Hi.
+  - intros j Hj Hx. apply in_positions in Hx. rewrite (H3 j Hj) in Hx. discriminate.
+  - intros Hx. apply in_positions in Hx. rewrite H4 in Hx. discriminate.
+Qed.
+
+Theorem nan_intervals_increasing m : inc_from 0 (map fst (get_nan_intervals m)).
+Proof. unfold get_nan_intervals. apply (chunks_spec (positions m) 0 (positions_inc m)). Qed.
+
+(* the zero-run case: no NaN row, no interval *)
+Theorem nan_intervals_no_nan m : (forall i, nth i m false = false) -> get_nan_intervals m = [].
+Proof.
+  intros H. destruct (get_nan_intervals m) as [|[s e] tl] eqn:E; [reflexivity|]. exfalso.
+  assert (R0 : maxrun m s e) by (apply nan_intervals_are_maximal_runs; rewrite E; left; reflexivity).
+  destruct R0 as (H1 & H2 & _). specialize (H2 s ltac:(lia)). rewrite H in H2. discriminate.
+Qed.
+
+(* two maximal runs that share an index coincide; every NaN index lies in one *)
+Lemma maxrun_unique m s e s' e' i : maxrun m s e -> maxrun m s' e' -> s <= i <= e -> s' <= i <= e' -> s = s' /\ e = e'.
+Proof.
+  intros (A1 & A2 & A3 & A4) (B1 & B2 & B3 & B4) Hi Hi'. split.
+  - destruct (Nat.lt_trichotomy s s') as [H|[H|H]]; [|exact H|].
+    + destruct s' as [|j]; [lia|]. specialize (B3 j eq_refl). rewrite (A2 j) in B3 by lia. discriminate.
+    + destruct s as [|j]; [lia|]. specialize (A3 j eq_refl). rewrite (B2 j) in A3 by lia. discriminate.
+  - destruct (Nat.lt_trichotomy e e') as [H|[H|H]]; [|exact H|].
+    + rewrite (B2 (S e)) in A4 by lia. discriminate.
+    + rewrite (A2 (S e')) in B4 by lia. discriminate.
+Qed.
+
+(* ======================================================================================
+   D. remove_jumps / q_correct
+   ====================================================================================== *)
+Section Rows.
+  Variable A : Type.
+  Variable negx : A -> A.
+  Variable jump : A -> A -> bool.
+  Variable interp : A -> A -> nat -> nat -> A.
+  Hypothesis negx_invol : forall a, negx (negx a) = a.
+
+  Notation row := (option A).
+  Notation neg_row := (neg_row negx).
+  Definition sgn (s : bool) (r : row) : row := if s then neg_row r else r.
+
+  Lemma neg_row_invol r : neg_row (neg_row r) = r.
+  Proof. destruct r; simpl; [rewrite negx_invol|]; reflexivity. Qed.
+  Lemma sgn_sgn s1 s2 r : sgn s1 (sgn s2 r) = sgn (xorb s1 s2) r.
+  Proof. destruct s1, s2; simpl; try reflexivity. apply neg_row_invol. Qed.
+
+  Lemma nth_neg_slice arr : forall pos a b i,
+    nth i (neg_slice negx pos arr a b) None = sgn ((a <=? pos + i) && (pos + i <? b)) (nth i arr None).
+  Proof.
+    induction arr as [|x r IH]; intros pos a b i; simpl.
+    - destruct i; destruct (_ && _); reflexivity.
+    - destruct i; simpl.
+      + rewrite Nat.add_0_r. reflexivity.
+      + rewrite IH. replace (S pos + i) with (pos + S i) by lia. reflexivity.
+  Qed.
+  Lemma neg_slice_length arr : forall pos a b, length (neg_slice negx pos arr a b) = length arr.
+  Proof. induction arr; intros; simpl; [reflexivity|]. rewrite IHarr. reflexivity. Qed.
+
+  Definition inside (j : nat * nat) (i : nat) : bool := (fst j <=? i) && (i <? snd j).
+  Definition cnt_in (pairs : list (nat * nat)) (i : nat) : nat := length (filter (fun j => inside j i) pairs).
+  Definition cnt_le (l : list nat) (i : nat) : nat := length (filter (fun j => j <=? i) l).
+
+  Lemma nth_fold_neg pairs : forall arr i,
+    nth i (fold_left (fun arr (j : nat * nat) => neg_slice negx 0 arr (fst j) (snd j)) pairs arr) None
+    = sgn (Nat.odd (cnt_in pairs i)) (nth i arr None).
+  Proof.
+    induction pairs as [|j tl IH]; intros arr i; simpl; [reflexivity|].
+    rewrite IH, nth_neg_slice, sgn_sgn. f_equal. unfold cnt_in. simpl. unfold inside at 2. simpl.
+    destruct ((fst j <=? i) && (i <? snd j)); simpl.
+    - rewrite Nat.odd_succ, <- Nat.negb_odd. destruct (Nat.odd _); reflexivity.
+    - destruct (Nat.odd _); reflexivity.
+  Qed.
+  Lemma fold_neg_length pairs : forall arr,
+    length (fold_left (fun arr (j : nat * nat) => neg_slice negx 0 arr (fst j) (snd j)) pairs arr) = length arr.
+  Proof. induction pairs; intros; simpl; [reflexivity|]. rewrite IHpairs, neg_slice_length. reflexivity. Qed.
+
+  (* pairing consecutive jump indices: row i lies in an odd number of slices iff an odd number of jumps is <= i *)
+  Lemma pair_up_parity N i : i < N -> forall l,
+    (forall lo, inc_from lo l -> (forall x, In x l -> x <= N) -> Nat.odd (cnt_in (pair_up N l) i) = Nat.odd (cnt_le l i)) /\
+    (forall a lo, inc_from lo (a :: l) -> (forall x, In x (a :: l) -> x <= N) ->
+                  Nat.odd (cnt_in (pair_up N (a :: l)) i) = Nat.odd (cnt_le (a :: l) i)).
+  Proof.
+    intros Hi. induction l as [|b l IH].
+    - split; [reflexivity|]. intros a lo _ Hb. unfold cnt_in, cnt_le, inside. simpl.
+      destruct (a <=? i); simpl; [|reflexivity]. destruct (Nat.ltb_spec i N); [reflexivity|lia].
+    - destruct IH as [IH1 IH2]. split; [intros lo; apply IH2|].
+      intros a lo [Ha [Hb Hl]] Hbound. change (pair_up N (a :: b :: l)) with ((a, b) :: pair_up N l).
+      assert (E : Nat.odd (cnt_in (pair_up N l) i) = Nat.odd (cnt_le l i)).
+      { apply (IH1 (S b) Hl). intros x Hx. apply Hbound. right. right. exact Hx. }
+      unfold cnt_in, cnt_le in *. simpl. unfold inside at 1. simpl.
+      destruct (Nat.leb_spec a i), (Nat.leb_spec b i), (Nat.ltb_spec i b); simpl; try lia;
+        rewrite ?Nat.odd_succ, <- ?Nat.negb_odd, ?Nat.odd_succ, <- ?Nat.negb_odd, E, ?Bool.negb_involutive; reflexivity.
+  Qed.
+
+  Lemma jump_flags_length rows : length (jump_flags jump rows) = pred (length rows).
+  Proof.
+    induction rows as [|a r IH]; [reflexivity|]. destruct r as [|b r']; [reflexivity|].
+    change (jump_flags jump (a :: b :: r')) with (jump_row jump a b :: jump_flags jump (b :: r')).
+    simpl length in *. rewrite IH. reflexivity.
+  Qed.
+  Lemma nth_jump_flags rows : forall i,
+    nth i (jump_flags jump rows) false = jump_row jump (nth i rows None) (nth (S i) rows None).
+  Proof.
+    induction rows as [|a r IH]; intros i.
+    - simpl. destruct i; reflexivity.
+    - destruct r as [|b r'].
+      + simpl. destruct i; simpl; [destruct a; reflexivity|destruct i; reflexivity].
+      + change (jump_flags jump (a :: b :: r')) with (jump_row jump a b :: jump_flags jump (b :: r')).
+        destruct i; [reflexivity|]. change (nth (S i) (a :: b :: r') None) with (nth i (b :: r') None).
+        change (nth (S (S i)) (a :: b :: r') None) with (nth (S i) (b :: r') None). simpl nth at 1. apply IH.
+  Qed.
+
+  (* the sign pattern: (-1)^(number of jumps at or before row i) *)
+  Definition flipped (rows : list row) (i : nat) : bool := Nat.odd (cnt_le (jump_indices jump rows) i).
+
+  Theorem remove_jumps_spec rows i : i < length rows ->
+    nth i (remove_jumps negx jump rows) None = sgn (flipped rows i) (nth i rows None).
+  Proof.
+    intros Hi. unfold remove_jumps. rewrite nth_fold_neg. f_equal. unfold flipped.
+    apply (proj1 (pair_up_parity (length rows) i Hi (jump_indices jump rows)) 1).
+    - unfold jump_indices. apply inc_from_map_S. apply positions_inc.
+    - intros x Hx. unfold jump_indices in Hx. apply in_map_iff in Hx. destruct Hx as (k & <- & Hk).
+      apply in_positions in Hk. destruct (Nat.lt_ge_cases k (length (jump_flags jump rows))) as [H|H].
+      + rewrite jump_flags_length in H. lia.
+      + rewrite nth_overflow in Hk by lia. discriminate.
+  Qed.
+  Theorem remove_jumps_length rows : length (remove_jumps negx jump rows) = length rows.
+  Proof. unfold remove_jumps. apply fold_neg_length. Qed.
+
+  (* the sign changes exactly at the jumps *)
+  Lemma cnt_le_succ l : forall lo i, inc_from lo l ->
+    cnt_le l (S i) = cnt_le l i + (if in_dec Nat.eq_dec (S i) l then 1 else 0).
+  Proof.
+    induction l as [|a r IH]; intros lo i Hinc; [reflexivity|]. destruct Hinc as [Ha Hr].
+    unfold cnt_le in *. simpl filter. pose proof (inc_from_ge _ _ Hr) as Hge.
+    destruct (in_dec Nat.eq_dec (S i) (a :: r)) as [Hin|Hin];
+      destruct (Nat.leb_spec a (S i)), (Nat.leb_spec a i); simpl length; try lia.
+    - rewrite (IH _ i Hr). destruct (in_dec Nat.eq_dec (S i) r) as [H1|H1]; [lia|].
+      destruct Hin as [Hx|Hx]; [lia|contradiction].
+    - rewrite (IH _ i Hr). destruct (in_dec Nat.eq_dec (S i) r) as [H1|H1]; [specialize (Hge _ H1); lia|lia].
+    - destruct Hin as [Hx|Hx]; [lia|]. specialize (Hge _ Hx). lia.
+    - rewrite (IH _ i Hr). destruct (in_dec Nat.eq_dec (S i) r) as [H1|H1]; [exfalso; apply Hin; right; exact H1|lia].
+    - exfalso. apply Hin. left. lia.
+    - rewrite (IH _ i Hr). destruct (in_dec Nat.eq_dec (S i) r) as [H1|H1]; [exfalso; apply Hin; right; exact H1|lia].
+  Qed.
+  Lemma flipped_succ rows i : flipped rows (S i) = xorb (flipped rows i) (nth i (jump_flags jump rows) false).
+  Proof.
+    unfold flipped. rewrite (cnt_le_succ _ 1 i) by (unfold jump_indices; apply inc_from_map_S, positions_inc).
+    destruct (in_dec Nat.eq_dec (S i) (jump_indices jump rows)) as [H|H].
+    - unfold jump_indices in H. apply in_map_iff in H. destruct H as (k & Ek & Hk). injection Ek as ->.
+      apply in_positions in Hk. rewrite Hk. rewrite Nat.add_1_r, Nat.odd_succ, <- Nat.negb_odd.
+      destruct (Nat.odd _); reflexivity.
+    - assert (nth i (jump_flags jump rows) false = false) as ->.
+      { apply not_true_false. intros Hx. apply H. unfold jump_indices. apply in_map. apply in_positions. exact Hx. }
+      rewrite Nat.add_0_r. destruct (Nat.odd _); reflexivity.
+  Qed.
+  Lemma flipped_0 rows : flipped rows 0 = false.
+  Proof.
+    unfold flipped. replace (cnt_le (jump_indices jump rows) 0) with 0; [reflexivity|].
+    unfold cnt_le, jump_indices. induction (positions (jump_flags jump rows)); simpl; [reflexivity|exact IHl].
+  Qed.
+
+  (* no jump remains, provided the jump test does not see a common sign and every jumping pair is close after one flip *)
+  Hypothesis jump_neg_both : forall a b, jump (negx a) (negx b) = jump a b.
+  Theorem remove_jumps_no_jump rows :
+    (forall i a b, nth i rows None = Some a -> nth (S i) rows None = Some b -> jump a b = true -> jump a (negx b) = false) ->
+    forall i, nth i (jump_flags jump (remove_jumps negx jump rows)) false = false.
+  Proof.
+    intros Hyp i. rewrite nth_jump_flags.
+    destruct (Nat.lt_ge_cases (S i) (length rows)) as [Hi|Hi].
+    - rewrite !remove_jumps_spec by lia. rewrite flipped_succ, nth_jump_flags.
+      destruct (nth i rows None) as [a|] eqn:Ea; [|destruct (flipped rows i); reflexivity].
+      destruct (nth (S i) rows None) as [b|] eqn:Eb.
+      2:{ simpl. destruct (flipped rows i); simpl; reflexivity. }
+      simpl jump_row at 2. destruct (jump a b) eqn:J.
+      + specialize (Hyp i a b Ea Eb J). destruct (flipped rows i); simpl.
+        * rewrite <- (negx_invol b) at 1. rewrite jump_neg_both. rewrite <- (jump_neg_both a (negx b)) in Hyp.
+          rewrite negx_invol in Hyp. rewrite <- jump_neg_both, negx_invol. exact Hyp.
+        * exact Hyp.
+      + destruct (flipped rows i); simpl; [rewrite jump_neg_both|]; exact J.
+    - rewrite (nth_overflow _ None) with (n := S i) by (rewrite remove_jumps_length; lia).
+      destruct (nth i _ None); reflexivity.
+  Qed.
+
+  (* ======================================================================================
+     E. slerp_nan
+     ====================================================================================== *)
+  Lemma upd_length arr : forall s vals, length (upd arr s vals) = length arr.
+  Proof.
+    induction arr as [|x r IH]; intros s vals; simpl; [reflexivity|].
+    destruct s; [destruct vals|]; simpl; rewrite ?IH; reflexivity.
+  Qed.
+  Lemma nth_upd arr : forall s vals i,
+    nth i (upd arr s vals) None =
+    if (s <=? i) && (i <? s + length vals) && (i <? length arr) then nth (i - s) vals None else nth i arr None.
+  Proof.
+    induction arr as [|x r IH]; intros s vals i.
+    - simpl. rewrite Bool.andb_false_r. destruct i; reflexivity.
+    - destruct s as [|s'].
+      + destruct vals as [|v vs].
+        * simpl. destruct i; reflexivity.
+        * simpl upd. destruct i; [reflexivity|]. simpl nth at 1. rewrite IH. simpl.
+          rewrite Nat.sub_0_r. reflexivity.
+      + simpl upd. destruct i; [reflexivity|]. simpl nth at 1. rewrite IH. simpl. reflexivity.
+  Qed.
+  Lemma nth_interpolants a b L k : k < L -> nth k (interpolants interp a b L) None = Some (interp a b (S k) (S L)).
+  Proof.
+    intros H. unfold interpolants. rewrite nth_indep with (d' := (fun k => Some (interp a b k (S L))) 0)
+      by (rewrite map_length, seq_length; exact H).
+    rewrite map_nth, seq_nth by exact H. reflexivity.
+  Qed.
+  Lemma interpolants_length a b L : length (interpolants interp a b L) = L.
+  Proof. unfold interpolants. rewrite map_length, seq_length. reflexivity. Qed.
+
+  Lemma fold_fill_none src ivs : fold_left (fill_one interp src) ivs None = None.
+  Proof. induction ivs; simpl; [reflexivity|exact IHivs]. Qed.
+
+  (* what row i of the result is: untouched, or written by one of the intervals that contain it *)
+  Definition written (src : list row) (ivs : list (nat * nat)) (i : nat) (v : row) : Prop :=
+    exists s' e a b, In (S s', e) ivs /\ S s' <= i <= e /\ nth s' src None = Some a /\ nth (S e) src None = Some b /\
+                     v = Some (interp a b (i - s') (S (e - s'))).
+  Lemma fold_fill src ivs : forall arr out, length arr = length src ->
+    fold_left (fill_one interp src) ivs (Some arr) = Some out ->
+    length out = length src /\
+    forall i, (nth i out None = nth i arr None /\ forall iv, In iv ivs -> ~ (fst iv <= i <= snd iv)) \/
+              written src ivs i (nth i out None).
+  Proof.
+    induction ivs as [|[s e] tl IH]; intros arr out Hlen Hf.
+    - simpl in Hf. injection Hf as <-. split; [exact Hlen|]. intros i. left. split; [reflexivity|]. intros iv [].
+    - simpl fold_left in Hf. unfold fill_one at 2 in Hf. simpl fst in Hf. simpl snd in Hf.
+      destruct s as [|s']; [rewrite fold_fill_none in Hf; discriminate|].
+      destruct (nth s' src None) as [a|] eqn:Ea; [|rewrite fold_fill_none in Hf; discriminate].
+      destruct (nth (S e) src None) as [b|] eqn:Eb; [|rewrite fold_fill_none in Hf; discriminate].
+      assert (He : S e < length src).
+      { destruct (Nat.lt_ge_cases (S e) (length src)); [assumption|]. rewrite nth_overflow in Eb by lia. discriminate. }
+      apply IH in Hf; [|rewrite upd_length; exact Hlen]. destruct Hf as [Hl Hf]. split; [exact Hl|].
+      intros i. destruct (Hf i) as [[H1 H2]|H1].
+      + rewrite nth_upd, interpolants_length in H1.
+        destruct (Nat.leb_spec (S s') i); simpl in H1.
+        * destruct (Nat.ltb_spec i (S s' + (e - s'))); simpl in H1.
+          -- destruct (Nat.ltb_spec i (length arr)); [|lia].
+             right. exists s', e, a, b. split; [left; reflexivity|]. split; [lia|]. split; [exact Ea|]. split; [exact Eb|].
+             rewrite H1, nth_interpolants by lia. f_equal. f_equal. lia.
+          -- left. split; [exact H1|]. intros iv [<-|Hin]; [simpl; lia|apply H2; exact Hin].
+        * left. split; [exact H1|]. intros iv [<-|Hin]; [simpl; lia|apply H2; exact Hin].
+      + right. destruct H1 as (s1 & e1 & a1 & b1 & Hin & R). exists s1, e1, a1, b1. split; [right; exact Hin|exact R].
+  Qed.
+  Lemma fold_fill_defined src ivs : forall arr,
+    (forall s e, In (s, e) ivs -> exists s' a b, s = S s' /\ nth s' src None = Some a /\ nth (S e) src None = Some b) ->
+    exists out, fold_left (fill_one interp src) ivs (Some arr) = Some out.
+  Proof.
+    induction ivs as [|[s e] tl IH]; intros arr H; simpl; [eexists; reflexivity|].
+    destruct (H s e (or_introl eq_refl)) as (s' & a & b & -> & Ea & Eb).
+    unfold fill_one at 2. simpl fst. simpl snd. rewrite Ea, Eb. apply IH.
+    intros s1 e1 Hin. apply H. right. exact Hin.
+  Qed.
+
+  Lemma nth_nan_mask (src : list row) i : nth i (nan_mask src) false = true <-> nth i src (None : row) = None /\ i < length src.
+  Proof.
+    unfold nan_mask. destruct (Nat.lt_ge_cases i (length src)) as [H|H].
+    - rewrite nth_indep with (d' := isnan (None : row)) by (rewrite map_length; exact H). rewrite map_nth.
+      destruct (nth i src None); simpl; split; try tauto; try discriminate. intros [? _]; discriminate.
+    - rewrite nth_overflow by (rewrite map_length; lia). split; [discriminate|lia].
+  Qed.
+  Lemma nth_nan_mask_valid (src : list row) i v : nth i src None = Some v -> nth i (nan_mask src) false = false.
+  Proof.
+    intros H. apply not_true_false. intros Hx. apply nth_nan_mask in Hx. destruct Hx as [Hx _]. rewrite H in Hx. discriminate.
+  Qed.
+
+  (* ---- the specification of the gap filling ---- *)
+  Theorem fill_nan_spec src out : fill_nan interp src = Some out ->
+    length out = length src /\
+    (forall i v, nth i src None = Some v -> nth i out None = Some v) /\
+    (forall s' e a b, maxrun (nan_mask src) (S s') e -> nth s' src None = Some a -> nth (S e) src None = Some b ->
+                      forall k, 1 <= k <= e - s' -> nth (s' + k) out None = Some (interp a b k (S (e - s')))).
+  Proof.
+    unfold fill_nan. intros Hf. apply fold_fill in Hf; [|reflexivity]. destruct Hf as [Hl Hf]. split; [exact Hl|]. split.
+    - intros i v Hv. destruct (Hf i) as [[H1 _]|(s' & e & a & b & Hin & Hi & _)]; [rewrite H1; exact Hv|]. exfalso.
+      apply nan_intervals_are_maximal_runs in Hin. destruct Hin as (_ & H2 & _).
+      rewrite (nth_nan_mask_valid _ _ _ Hv) in H2 by exact Hi. discriminate H2. exact Hi.
+    - intros s' e a b Hrun Ea Eb k Hk.
+      assert (Hi : S s' <= s' + k <= e) by lia.
+      destruct (Hf (s' + k)) as [[_ H2]|(s1 & e1 & a1 & b1 & Hin & Hi1 & Ea1 & Eb1 & ->)].
+      + exfalso. apply (H2 (S s', e)); [apply nan_intervals_are_maximal_runs; exact Hrun|simpl; lia].
+      + apply nan_intervals_are_maximal_runs in Hin.
+        destruct (maxrun_unique _ _ _ _ _ _ Hin Hrun Hi1 Hi) as [E1 E2]. injection E1 as ->. subst e1.
+        rewrite Ea in Ea1. rewrite Eb in Eb1. injection Ea1 as <-. injection Eb1 as <-. f_equal. f_equal. lia.
+  Qed.
+
+  (* defined for every array whose first and last rows are valid: every position and length of interior runs *)
+  Theorem fill_nan_defined src v0 v1 : nth 0 src None = Some v0 -> nth (pred (length src)) src None = Some v1 ->
+    exists out, fill_nan interp src = Some out.
+  Proof.
+    intros H0 H1. unfold fill_nan. apply fold_fill_defined. intros s e Hin.
+    apply nan_intervals_are_maximal_runs in Hin. destruct Hin as (G1 & G2 & G3 & G4).
+    destruct s as [|s'].
+    - specialize (G2 0 ltac:(lia)). rewrite (nth_nan_mask_valid _ _ _ H0) in G2. discriminate.
+    - assert (He : nth e (nan_mask src) false = true) by (apply G2; lia). apply nth_nan_mask in He. destruct He as [He Hlt].
+      assert (S e < length src).
+      { destruct (Nat.eq_dec e (pred (length src))) as [->|]; [rewrite H1 in He; discriminate|lia]. }
+      specialize (G3 s' eq_refl).
+      destruct (nth s' src None) as [a|] eqn:Ea.
+      2:{ exfalso. assert (nth s' (nan_mask src) false = true) by (apply nth_nan_mask; split; [exact Ea|lia]). congruence. }
+      destruct (nth (S e) src None) as [b|] eqn:Eb.
+      2:{ exfalso. assert (nth (S e) (nan_mask src) false = true) by (apply nth_nan_mask; split; [exact Eb|lia]). congruence. }
+      exists s', a, b. repeat split.
+  Qed.
+
+  (* slerp_nan = fill after jump removal *)
+  Theorem slerp_nan_spec rows out : slerp_nan negx jump interp rows = Some out ->
+    length out = length rows /\
+    (forall i v, i < length rows -> nth i rows None = Some v -> nth i out None = sgn (flipped rows i) (Some v)) /\
+    (forall s' e a b, maxrun (nan_mask rows) (S s') e -> nth s' rows None = Some a -> nth (S e) rows None = Some b ->
+       forall k, 1 <= k <= e - s' ->
+       exists a' b', sgn (flipped rows s') (Some a) = Some a' /\ sgn (flipped rows (S e)) (Some b) = Some b' /\
+                     nth (s' + k) out None = Some (interp a' b' k (S (e - s')))).
+  Proof.
+    unfold slerp_nan. intros Hf. apply fill_nan_spec in Hf. destruct Hf as (Hl & Hv & Hr).
+    rewrite remove_jumps_length in Hl. split; [exact Hl|]. split.
+    - intros i v Hi Hv0. pose proof (remove_jumps_spec rows i Hi) as E. rewrite Hv0 in E.
+      destruct (flipped rows i); simpl in *; apply Hv; exact E.
+    - intros s' e a b Hrun Ea Eb k Hk.
+      assert (Hlt : S e < length rows).
+      { destruct (Nat.lt_ge_cases (S e) (length rows)); [assumption|]. rewrite nth_overflow in Eb by lia. discriminate. }
+      pose proof (remove_jumps_spec rows s' ltac:(lia)) as E1. rewrite Ea in E1.
+      pose proof (remove_jumps_spec rows (S e) Hlt) as E2. rewrite Eb in E2.
+      assert (Hmask : nan_mask (remove_jumps negx jump rows) = nan_mask rows).
+      { apply nth_ext with (d := false) (d' := false); [unfold nan_mask; rewrite !map_length; apply remove_jumps_length|].
+        intros i Hi. unfold nan_mask in Hi. rewrite map_length, remove_jumps_length in Hi.
+        unfold nan_mask. rewrite !nth_indep with (d := false) (d' := isnan (None : row)) by (rewrite map_length, ?remove_jumps_length; exact Hi).
+        rewrite !map_nth, remove_jumps_spec by exact Hi. destruct (flipped rows i), (nth i rows None); reflexivity. }
+      destruct (flipped rows s') eqn:F1, (flipped rows (S e)) eqn:F2; simpl in E1, E2; simpl;
+        do 2 eexists; (split; [reflexivity|]); (split; [reflexivity|]);
+        apply (Hr s' e _ _); try assumption; rewrite Hmask; exact Hrun.
+  Qed.
+End Rows.
